@@ -77,6 +77,33 @@ thread_local! {
     static GUARD_DEPTH: std::cell::Cell<u32> = const { std::cell::Cell::new(0) };
 }
 
+/// context of the safety net in the panic hook (set for the in-process sweep engines only)
+pub struct NetCtx {
+    pub engine: String,
+    pub prop: String,
+    pub tier: &'static str,
+    pub seed: u64,
+    pub replay_dir: PathBuf,
+    pub evidence: Option<PathBuf>,
+}
+static NET: std::sync::OnceLock<NetCtx> = std::sync::OnceLock::new();
+static NET_LOCK: Mutex<()> = Mutex::new(());
+
+pub fn arm_safety_net(a: &Args) {
+    const ENGINES: [&str; 13] = ["cal", "nanos", "fmt", "table", "rule", "rulecons", "find", "leap", "zonecons", "dtinv", "tzstr", "tzif", "resolve"];
+    if a.digest_mode || !ENGINES.contains(&a.engine.as_str()) {
+        return;
+    }
+    let _ = NET.set(NetCtx {
+        engine: a.engine.clone(),
+        prop: a.prop.clone(),
+        tier: if a.tier == Tier::Thorough { "thorough" } else { "quick" },
+        seed: a.seed,
+        replay_dir: a.replay_dir.clone(),
+        evidence: a.evidence.clone(),
+    });
+}
+
 pub fn install_panic_hook() {
     std::panic::set_hook(Box::new(|info| {
         let msg = if let Some(s) = info.payload().downcast_ref::<&str>() {
@@ -88,6 +115,33 @@ pub fn install_panic_hook() {
         };
         let loc = info.location().map(|l| format!("{}:{}", l.file(), l.line())).unwrap_or_default();
         if GUARD_DEPTH.with(|g| g.get()) == 0 {
+            let harness = loc.starts_with("tzmc/src") || loc.starts_with("refmodel/src") || loc.contains("/verif/harness/");
+            let foreign = loc.contains("/rustc/") || loc.contains("/.cargo/") || loc.contains("/library/") || loc.is_empty();
+            if !harness && !foreign && loc.contains("src/") {
+                if let Some(ctx) = NET.get() {
+                    // safety net: tz-rs itself panicked in a call the engine did not wrap. No model ever panics, so this
+                    // is a verdict for every property; the replay re-runs the sweep (the case is not known here).
+                    let _g = NET_LOCK.lock();
+                    let case = json!({"kind": "unguarded_panic", "tier": ctx.tier, "message": msg, "location": loc});
+                    let v = json!({"engine": ctx.engine, "property": ctx.prop, "sweep": "unguarded", "case": case, "expected": "no panic inside tz-rs", "got": format!("{msg} @ {loc}")});
+                    let _ = std::fs::create_dir_all(&ctx.replay_dir);
+                    let rp = ctx.replay_dir.join(format!("{}-{}-panic.json", ctx.prop, ctx.engine));
+                    let _ = std::fs::write(&rp, serde_json::to_string_pretty(&v).unwrap());
+                    if let Some(e) = &ctx.evidence {
+                        let ev = json!({"property_id": ctx.prop, "tier": ctx.tier, "seed": ctx.seed, "level": "model_checking", "engine": ctx.engine,
+                            "coverage": {"evaluations": 0, "distinct_nontrivial": 0, "states": 0, "transitions": 0, "traces_validated_against_impl": 0,
+                                "rule": "the run was ended by a panic inside tz-rs in a call the engine does not wrap; counts were not kept", "samples": [v["case"].clone()]},
+                            "wall_s": 0.0, "violations": 1});
+                        if let Some(dir) = e.parent() {
+                            let _ = std::fs::create_dir_all(dir);
+                        }
+                        let _ = std::fs::write(e, serde_json::to_string_pretty(&ev).unwrap());
+                    }
+                    println!("tz-rs panicked: {msg} @ {loc}");
+                    println!("VIOLATION property={} replay={}", ctx.prop, rp.display());
+                    std::process::exit(1);
+                }
+            }
             eprintln!("MACHINERY PANIC (outside any guarded call into tz-rs): {msg} @ {loc}");
         }
         PANIC_MSG.with(|m| *m.borrow_mut() = Some(format!("{msg} @ {loc}")));
